@@ -22,7 +22,6 @@ relation).  The shortest witnessing history is kept in the detail / replay file.
 from __future__ import annotations
 
 import collections
-import copy
 import hashlib
 import logging
 import os
@@ -50,15 +49,24 @@ RULE = (
 ASSUMPTIONS = [
     "np.empty inside WallGo.interpolatableFunction is replaced (module attribute, no source change) by an allocator that fills "
     "NaN, so that reads of uninitialised memory are deterministic; a correct implementation is unaffected",
-    "spline comparisons use tolerance Lambda(x)*(2e-14+64eps)*max|v| with Lambda the Lebesgue function of the reference spline "
-    "(values may carry the %.15g rounding of a write/read round trip); direct values 8 eps; finite-difference derivatives "
-    "outside the table 64 eps sum|c||f|/h^n + h^4 M/30 (M/90) around the analytic derivative prescribed by the mode",
+    "spline comparisons use tolerance Lambda(x)*(1e-13+64eps)*max|v| with Lambda the Lebesgue function of the reference spline "
+    "(stored values may carry the %.15g rounding of value and abscissa from a write/read round trip, <= 2.5e-14 max|v|); direct "
+    "values 8 eps |f|; finite-difference derivatives outside the table 64 eps sum|c||f|/h^n + h^4 M/30 (M/90) around the analytic "
+    "derivative the mode prescribes (0 for CONSTANT, spline derivative for FUNCTION, f' for NONE)",
+    "write+read reproduces abscissae and values to 1e-14 relative (the property's number); 15 written digits give a worst-case "
+    "rounding of 5e-15, so the observed margin of these relations is ~0.5 by construction",
     "interpolation accuracy: |spline-f| <= hmax^4 max|f''''| (K=1) per component on entries where f is finite",
     "one extra abscissa one spacing above newMax after an upper extension is tolerated (np.arange end-point rounding; reported "
     "as tag extend-overshoot-upper), an extra abscissa at the lower end is not (it duplicates an existing abscissa)",
     "abscissae must be distinct beyond 1e-12 relative (two abscissae that coincide to 15 digits cannot survive the text round trip)",
     "the adaptive accounting is checked for evaluate/schedule operations only (documented rule: distinct finite direct evaluations "
-    "are remembered, update at the threshold); for derivative operations only the state invariant is checked afterwards",
+    "are remembered, update at the threshold); for derivative operations only the state invariant is checked afterwards; when all "
+    "remembered points coincide no table can be built and only 'the call returns normally' + the invariant are required",
+    "if an adaptive update fires in the middle of an evaluate call, entries above the range that are not re-evaluated directly "
+    "may follow either the table before or the table after the call",
+    "a call that raises the prescribed ValueError may already have remembered direct evaluations (the table may only grow)",
+    "finite-difference derivatives of the function itself are not compared where the 5-point stencil touches the zone in which "
+    "the test function is undefined (NaN by nature)",
 ]
 
 N0 = 10  # initialInterpolationPointCount of the objects under test (append count 2, fresh table 10)
@@ -169,7 +177,6 @@ def digest(s: dict) -> str:
 
 # =========================================================================== operation alphabet
 SHAPES = ("scalar", "list", "1d", "2d")
-EV_REGIONS = ("inside", "below", "above", "mixed", "boundary")
 
 
 def _alphabet() -> list[str]:
@@ -570,7 +577,11 @@ def _adaptive_after_direct(kind, acc, region, pre, post, xdirect):
         req, opt = O.expected_extend(kind, pre["pts"] if pre["has"] else None, p["tmin"], p["tmax"],
                                      int(0.2 * N0) if pre["has"] else N0 // 2, int(0.2 * N0) if pre["has"] else N0 // 2)
         if len(req) < 2 or not np.all(np.diff(req) > 0):
+            # all remembered evaluations coincide (or fewer than two finite rows): no table can be built.  The call
+            # itself must still return normally (checked by the value relations); what happens to the memory is
+            # not specified, only I(post) is required.
             acc.tags.add("adaptive-trigger-degenerate")
+            return
         _check_table(kind, acc, f"{region}:adaptive-table", post, req, opt)
         acc.true(f"{region}:pending", post["count"] == 0 and len(post["pend"]) == 0, got=_pend_tuple(post), want=(0, None, None))
     else:
